@@ -418,9 +418,39 @@ func (f *findings) repair(c Case) Case {
 
 // ---------------------------------------------------------------- classification
 
+func isSpecialString(v vals.V) bool {
+	if v.K != "string" {
+		return false
+	}
+	for _, s := range specialStrings() {
+		if s.S == v.S {
+			return true
+		}
+	}
+	return false
+}
+
 func classify(c Case) (bool, []string) {
 	var cls []string
 	add := func(s string) { cls = append(cls, s) }
+	for _, a := range c.Attrs {
+		switch a.Kind {
+		case "bind", "vbind":
+			if isSpecialString(c.lookup(a.Text, 0)) {
+				add("special-string:bound-" + map[bool]string{true: "class-or-style", false: "attribute"}[a.Name == "class" || a.Name == "style"])
+			}
+		case "obj", "vobj":
+			for _, p := range a.Pairs {
+				if v, _, _ := c.pairVal(p, 0); p.Src == "path" && isSpecialString(v) {
+					add("special-string:" + a.Name + "-object-value")
+				}
+			}
+		case "show":
+			if a.Gt == nil && isSpecialString(c.lookup(a.Text, 0)) {
+				add("special-string:v-show")
+			}
+		}
+	}
 	add("tag:" + c.Tag)
 	if c.Place == "" {
 		add("place:div")
@@ -711,8 +741,20 @@ func classify(c Case) (bool, []string) {
 
 // ---------------------------------------------------------------- value tables
 
+// specialStrings look like falsy values but are ordinary non-empty strings: docs/syntax.md lists
+// false, 0, "" and nil as falsy, "any other value" is truthy. Only the exact text "false" is left
+// open (vals.V.Truthy), its case and spacing variants are not.
+func specialStrings() []vals.V {
+	var out []vals.V
+	for _, s := range []string{"False", "FALSE", "fAlSe", "True", "TRUE", "Null", "NIL", "nil", "null", "undefined", "0.0", "00", "-0", " false", "false ", "no", "off", "NaN"} {
+		out = append(out, vals.Str(s))
+	}
+	return out
+}
+
 func tableVals() []vals.V {
 	out := append(vals.Scalars(), vals.Containers()...)
+	out = append(out, specialStrings()...)
 	out = append(out,
 		vals.Str("b1 b2"), vals.Str("hello"),
 		vals.Str("color:red"), vals.Str("color: red; width: 2px;"), vals.Str("font-size:3px;margin:0"), vals.Str("display:block"),
@@ -887,8 +929,8 @@ func enumerate(rec *ev.Rec, f *findings, shard, shards int) (int, bool) {
 	}
 	// multi-slot placements: every form over the slot props x every ordered pair of `on` values
 	// (plus some triples) x placement; every instance is compared with the model of its row
-	onVals := []vals.V{vals.Bool(true), vals.Bool(false), vals.Int(0), vals.Int(1), vals.Str(""), vals.Str("x"), vals.Nil(), vals.Num("uint8", "0"), vals.Str("0"), vals.Num("float64", "0.5")}
-	onVals = onVals[:run.Pick(6, len(onVals))] // quick tier: the first six values, thorough: all ten
+	onVals := []vals.V{vals.Bool(true), vals.Bool(false), vals.Int(0), vals.Int(1), vals.Str(""), vals.Str("False"), vals.Str("x"), vals.Nil(), vals.Num("uint8", "0"), vals.Str("0"), vals.Num("float64", "0.5")}
+	onVals = onVals[:run.Pick(6, len(onVals))] // quick tier: the first six values, thorough: all eleven
 	var rowSets [][]vals.V
 	for _, a := range onVals {
 		for _, b := range onVals {
@@ -1031,6 +1073,9 @@ func (b *builder) newVar(v vals.V) string {
 }
 
 func (b *builder) anyVal(label string) vals.V {
+	if chance(b.t, label+"-special", 12) {
+		return pick(b.t, label+"-sp", specialStrings())
+	}
 	if chance(b.t, label+"-tab", 55) {
 		return pick(b.t, label, b.table)
 	}
@@ -1054,7 +1099,7 @@ var (
 	litNames     = []string{"v-if", "v-show", "v-for", ":lang", ":class", "v-bind:id", "v-html", "v-once", "v-else", ":style"}
 	litTexts     = []string{"x", "count", "a > b", "some text", "{a: b}", "item in items", " pad "}
 	simpleVals   = []vals.V{vals.Str("hello"), vals.Str("x"), vals.Int(7), vals.Str(""), vals.Bool(true), vals.Num("float64", "0.5"), vals.Str("a b"), vals.Nil()}
-	rowOnVals    = []vals.V{vals.Int(0), vals.Int(1), vals.Str(""), vals.Str("x"), vals.Nil(), vals.Num("uint8", "0"), vals.Num("float64", "0.5"), vals.Str("0"), vals.Num("float32", "0")}
+	rowOnVals    = []vals.V{vals.Str("False"), vals.Str("FALSE"), vals.Str("00"), vals.Str(" false"), vals.Int(0), vals.Int(1), vals.Str(""), vals.Str("x"), vals.Nil(), vals.Num("uint8", "0"), vals.Num("float64", "0.5"), vals.Str("0"), vals.Num("float32", "0")}
 	truthyVals   = []vals.V{vals.Bool(true), vals.Int(1), vals.Str("x"), vals.Num("uint8", "3")}
 	classKeys    = []Pair{{Key: "k1"}, {Key: "k-2", Q: true}, {Key: "k3"}, {Key: "k4", Q: true}, {Key: "is-on", Q: true}}
 	styleKeys    = []Pair{{Key: "color"}, {Key: "fontSize"}, {Key: "backgroundColor"}, {Key: "borderTopWidth"}, {Key: "width"}, {Key: "--x", Q: true},
